@@ -223,7 +223,7 @@ pub fn build_fresh(spec: &NetSpec) -> Result<Network, String> {
 }
 
 /// an input of the network's input shape (for the evaluations a "warm" build makes along the way)
-fn warm_input(shape: &Shape) -> Tensor {
+pub fn warm_input(shape: &Shape) -> Tensor {
     let val = |i: usize| 0.25 * (i % 5) as f32 - 0.4;
     match shape {
         Shape::Single(n) => Tensor::single((0..*n).map(val).collect()),
@@ -235,14 +235,21 @@ fn warm_input(shape: &Shape) -> Tensor {
 /// `warm`: the network is evaluated once before its connections / accumulations / objective / optimizer are configured
 /// and once after; both evaluations are discarded (a panic of the half-configured network is ignored)
 pub fn build_with(spec: &NetSpec, warm: bool) -> Result<Network, String> {
+    build_inner(spec, warm, false).map(|(n, _)| n)
+}
+
+/// `tolerant`: a `connect` call the library refuses (it panics) is caught and the SAME network object is built on; the
+/// positions (in `spec.builds`) of the refused calls are returned
+pub fn build_inner(spec: &NetSpec, warm: bool, tolerant: bool) -> Result<(Network, Vec<usize>), String> {
     try_run(|| {
+        let mut refused: Vec<usize> = Vec::new();
         let mut net = Network::new(spec.input.clone());
         let mut warmed = !warm;
         // the accumulations are configured either before the first connection is made or after the last one (the order of
         // the configuration calls must not matter); which of the two is a fixed function of the request
         let early = spec.builds.len() % 2 == 1;
         let mut configured = false;
-        for b in &spec.builds {
+        for (bi, b) in spec.builds.iter().enumerate() {
             if !warmed && matches!(b, Build::Connect(..) | Build::Loopback { .. }) {
                 let x = warm_input(&spec.input);
                 let _ = std::panic::catch_unwind(std::panic::AssertUnwindSafe(|| net.predict(&x)));
@@ -271,7 +278,13 @@ pub fn build_with(spec: &NetSpec, warm: bool) -> Result<Network, String> {
                         }
                     }
                 }
-                Build::Connect(a, b) => net.connect(*a, *b),
+                Build::Connect(a, b) => {
+                    if tolerant {
+                        if std::panic::catch_unwind(std::panic::AssertUnwindSafe(|| net.connect(*a, *b))).is_err() { refused.push(bi); }
+                    } else {
+                        net.connect(*a, *b)
+                    }
+                }
                 Build::Loopback { outof, into, iterations, scale, inskips } => net.loopback(*outof, *into, *iterations, scale_of(scale), *inskips),
             }
         }
@@ -290,7 +303,7 @@ pub fn build_with(spec: &NetSpec, warm: bool) -> Result<Network, String> {
             let x = warm_input(&spec.input);
             let _ = std::panic::catch_unwind(std::panic::AssertUnwindSafe(|| net.predict(&x)));
         }
-        net
+        (net, refused)
     })
 }
 
@@ -466,6 +479,11 @@ pub fn exec(ctx: &mut Ctx, op: &str, p: &mut Toks) -> String {
         "backward" => {
             let x = p.tensor();
             let t = p.tensor();
+            if ctx.prop == "C01" && spec.token().contains("3f000000") {
+                // a stand-alone validate comes first on networks with a dropout rate (0.5): the gradients asked for afterwards
+                // are still those of the layers' operators (the evaluation leaves the network as it was)
+                let _ = try_run(|| net.validate(&vec![&x], &vec![&t], 0.1));
+            }
             let r = try_run(|| {
                 let (pre, act, maxp, fbs) = net.forward(&x);
                 let (loss, grad) = net.verif_objective(act.last().unwrap(), &t);
@@ -563,6 +581,18 @@ pub fn exec(ctx: &mut Ctx, op: &str, p: &mut Toks) -> String {
             let job = LearnJob { xs, ts, val, batch, epochs, script, print: if print == 0 { None } else { Some(print as i32) }, phases: 1 };
             let r = run_learn(&mut net, &job);
             crate::ops::props::net_oracles_learn(ctx, &spec, &net, &job, &r);
+            if r.is_ok() {
+                // what the training call leaves behind: the reported parameter count is still that of the parameters held
+                // (C10 / C08), and the network still computes the composition of its layers' operators with the announced
+                // shapes (C02 / C08 / C11: checked by the forward oracles on a prediction made afterwards)
+                crate::ops::props::net_oracles_parameters(ctx, &spec, &net);
+                if ["C02", "C08", "C11"].contains(&ctx.prop.as_str()) && !job.xs.is_empty() {
+                    let x = job.xs[0].clone();
+                    let pr = try_run(|| net.predict(&x));
+                    let trained = crate::ops::props::spec_with_params_of(&spec, &net);
+                    crate::ops::props::net_oracles_predict(ctx, &trained, &net, &x, &pr);
+                }
+            }
             if r.is_ok() && ctx.prop == "C12" {
                 // after training has returned, validate is still the faithful aggregation of predict on the same network
                 let (vx, vt) = match &job.val { Some((a, b, _)) => (a.clone(), b.clone()), None => (job.xs.clone(), job.ts.clone()) };
